@@ -234,3 +234,22 @@ def r16_5(ctx):
 def r16_6(ctx):
     from .c09 import r09_11
     r09_11(ctx)
+
+
+@rule("R16.7", min_instances=4, desc="der() on a stage made from a template sees the template's model: every table Stage.der consults (states, quadrature states, their right-hand sides, B-spline signals) is carried over by Stage.clone, or the template is rejected")
+def r16_7(ctx):
+    """D82: clone() did not copy qstates: on the clone der(q) was 0 and `at_tf(der(q)) <= c` became `0 <= c` (dropped silently)."""
+    from ..effects import writes_in
+    P = ctx.prog
+    f = P.own_method("Stage", "clone")
+    d = P.own_method("Stage", "der")
+    ws = {w.attr for w in writes_in(f.node, recv="ret")}
+    consulted = {"states": "self.x", "qstates": "self.xq", "_state_der": "the ODE right-hand sides (self._ode())", "_signals": "self._signals"}
+    reads = ast.unparse(d.node)
+    if "self.xq" not in reads or "_signals" not in reads:
+        raise AnalysisError("Stage.der no longer consults self.xq / self._signals (anchor moved?)")
+    for attr, via in consulted.items():
+        rejected = any(isinstance(n_, (ast.If, ast.Assert)) and ("self.%s" % attr) in ast.unparse(n_.test) and (isinstance(n_, ast.Assert) or any(isinstance(x, ast.Raise) for x in n_.body))
+                       for n_ in walk_no_nested(f.node))
+        ctx.check(attr in ws or rejected, "Stage.clone carries over %s (read by der() through %s)" % (attr, via), detail="der() on a stage made from a template silently drops the terms that depend on this table",
+                  expected="ret.%s = <copy> in clone(), or an exception when the template's table is not empty" % attr, found="neither copied nor rejected", fi=f)
